@@ -1,0 +1,26 @@
+//go:build verif
+
+package core
+
+// Verification hooks (build tag "verif"). With the tag off, verif_off.go
+// provides no-op equivalents, so shipped behaviour is unchanged.
+
+// verifCursorRead, when set, replaces the direct os.Stdin read
+// performed by GetCursorPos when no other routine is reading input.
+var verifCursorRead func(buf []byte) (int, error)
+
+// verifYield, when set, is called at named scheduling points.
+var verifYield func(site string)
+
+// YieldPoint marks a point at which a simulator may interleave goroutines.
+func YieldPoint(site string) {
+	if verifYield != nil {
+		verifYield(site)
+	}
+}
+
+// VerifSetCursorRead installs the replacement for the direct cursor read.
+func VerifSetCursorRead(f func(buf []byte) (int, error)) { verifCursorRead = f }
+
+// VerifSetYield installs the yield function.
+func VerifSetYield(f func(site string)) { verifYield = f }
